@@ -10,6 +10,7 @@ import (
 	"math/rand/v2"
 	"net"
 	"slices"
+	"strings"
 	"time"
 
 	"github.com/c2FmZQ/ech"
@@ -60,7 +61,12 @@ func foreignHello(r *rand.Rand, echKind string, key *gen.KeyMat, tls13 bool, big
 	used := map[uint16]bool{}
 	var exts []gen.Ext
 	if r.IntN(8) != 0 {
-		exts = append(exts, gen.SNI(hostName(r)))
+		name := hostName(r)
+		if len(name) == 253 && name[0] < 'n' && !big {
+			// the server_name field carries up to 65535 octets; what a DNS name may be is not this layer's business
+			name += "." + strings.Repeat("x", 13+int(name[1]-'a')*40)
+		}
+		exts = append(exts, gen.SNI(name))
 	}
 	if a := alpnList(r); len(a) > 0 {
 		exts = append(exts, gen.ALPN(a...))
